@@ -721,7 +721,7 @@ def make_gate_dir(ctl, gate_names):
     return os.open(os.path.join(ctl, 'log'), os.O_RDWR)
 
 
-def run_controller(ctl, log_fd, steps, timeout, result_path):
+def run_controller(ctl, log_fd, steps, timeout, result_path, first_timeout=None):
     """Controller loop (runs in its own process).  steps: list of dict(gate=<name>, confirm=<log line>|None).
     For every step: wait until `at <gate>` was logged, open the gate, wait for the confirmation line.
     Writes dict(ok, log=[lines in arrival order], error) to result_path.  On timeout every gate is opened
@@ -764,7 +764,8 @@ def run_controller(ctl, log_fd, steps, timeout, result_path):
 
     ok, err = True, None
     for k, st in enumerate(steps):
-        deadline = time.time() + timeout
+        # the first arrival includes the start-up of the whole pool (and manager) of the system under test
+        deadline = time.time() + (first_timeout if k == 0 and first_timeout else timeout)
         if not wait_for(f'at {st["gate"]}', deadline):
             ok, err = False, f'step {k}: participant never arrived at gate {st["gate"]} (log so far: {seen})'
             break
@@ -795,14 +796,14 @@ def run_controller(ctl, log_fd, steps, timeout, result_path):
         pump(time.time() + 1.0)
 
 
-def fork_controller(ctl, log_fd, steps, timeout=45.0):
+def fork_controller(ctl, log_fd, steps, timeout=45.0, first_timeout=300.0):
     """Fork the controller; returns (pid, result_path)."""
     result_path = os.path.join(ctl, 'result.json')
     pid = os.fork()
     if pid == 0:
         code = 0
         try:
-            run_controller(ctl, log_fd, steps, timeout, result_path)
+            run_controller(ctl, log_fd, steps, timeout, result_path, first_timeout)
         except BaseException:  # pylint: disable=broad-except
             code = 3
         finally:
@@ -840,6 +841,32 @@ def join_controller(pid, result_path, fds=(), grace=10.0):
         return dict(ok=False, error='controller died', log=[])
     with open(result_path) as f:
         return json.load(f)
+
+
+@contextlib.contextmanager
+def real_slot(scratch, slots):
+    """At most `slots` real-pool runs at a time across all pmap workers (each spawns a manager, W workers, a
+    controller and the participants: running 16 of them at once only makes every one of them slow)."""
+    import fcntl
+    d = os.path.join(scratch, 'slots')
+    os.makedirs(d, exist_ok=True)
+    fds = [os.open(os.path.join(d, f's{k}'), os.O_CREAT | os.O_RDWR) for k in range(slots)]
+    held = None
+    try:
+        while held is None:
+            for fd in fds:
+                try:
+                    fcntl.flock(fd, fcntl.LOCK_EX | fcntl.LOCK_NB)
+                    held = fd
+                    break
+                except OSError:
+                    continue
+            else:
+                time.sleep(0.02)
+        yield
+    finally:
+        for fd in fds:
+            os.close(fd)
 
 
 def undaemonize():
